@@ -278,3 +278,43 @@ def arr_ravel(eng, st, args, kwargs, line):
     if isinstance(a, VArr2) and smt.conc_int(a.s1) == 1 and eng.entails(st, a.s0 == a.n1):
         return val(st, VArr(a.obj, a.off, z3.IntVal(1), smt.som(a.n0 * a.n1)))
     raise OutOfSubset(f"line {line}: ravel of a non-contiguous 2-D view (copy)")
+
+
+@model("arrmethod.astype")
+def arr_astype(eng, st, args, kwargs, line):
+    """ndarray.astype(dtype[, copy]): element-wise C cast into a new array (the same array when nothing changes
+    and copy=False)."""
+    eng.assume_tag("A-NP")
+    a = args[0]
+    dt = dtype_of(eng, args[1] if len(args) > 1 else kwargs.get("dtype"))
+    if not isinstance(a, VArr):
+        raise OutOfSubset(f"line {line}: astype of {a!r}")
+    meta = st.hmeta[a.obj]
+    if meta.get("dtype") == dt:
+        return val(st, a)
+    kind = kind_of_dtype(eng, dt)
+    j = z3.Int("j!as")
+    el = eng.elem_wrap(z3.Select(st.heap[a.obj], eng.arr_index_term(a, j)), meta["kind"])
+    sub = st.fork()
+    eng.spec_depth += 1
+    try:
+        raw = eng.conv_store(sub, el, kind, dt, line)
+    finally:
+        eng.spec_depth -= 1
+    st.pc.extend(p for p in sub.pc[len(st.pc):])
+    return val(st, new_array(eng, st, [a.n], kind, dt, z3.Lambda([j], raw), "astype"))
+
+
+@model("scalarmethod.astype")
+def scalar_astype(eng, st, args, kwargs, line):
+    """numpy scalar .astype(dtype): C cast of one value"""
+    dt = VDtype(dtype_of(eng, args[1]))
+    return val(st, eng.cast_scalar(dt, args[0], st, line))
+
+
+@model("numpy.array")
+def np_array(eng, st, args, kwargs, line):
+    a = args[0]
+    if isinstance(a, VArr) and "dtype" not in kwargs:
+        return val(st, a)  # a copy with the same contents: callers here never write it
+    raise OutOfSubset(f"line {line}: np.array({a!r})")
